@@ -121,7 +121,7 @@ class P:
         j = self.i
         if self.t[j] == "const":
             j += 1
-        if j < len(self.t) and self.t[j] in ("T", "usize"):
+        if j < len(self.t) and self.t[j] in ("T", "usize", "bool"):
             nxt = self.t[j + 1] if j + 1 < len(self.t) else None
             return nxt == "*" or (nxt is not None and IDENT.match(nxt) and nxt not in TYPEWORDS)
         return False
@@ -141,13 +141,13 @@ class P:
                 raise Refuse(f"{self.fn}: declarator `{name}`")
             if base == "T" and not ptr:
                 raise Refuse(f"{self.fn}: a local object of type T (`{name}`) is outside the translated subset")
-            if base == "usize" and ptr:
-                raise Refuse(f"{self.fn}: `usize* {name}`")
+            if base in ("usize", "bool") and ptr:
+                raise Refuse(f"{self.fn}: `{base}* {name}`")
             init = None
             if self.peek() == "=":
                 self.eat("=")
                 init = self.assignment()
-            ds.append(("ptr" if ptr else "nat", name, init))
+            ds.append(("ptr" if ptr else ("bool" if base == "bool" else "nat"), name, init))
             if self.peek() == ",":
                 self.eat(",")
                 continue
@@ -202,7 +202,7 @@ class P:
             e = self.expr()
             self.eat(";")
             return ("delete", e)
-        if tok in ("bool", "int", "uint", "char", "static", "Iterator", "Array", "auto"):
+        if tok in ("int", "uint", "char", "static", "Iterator", "Array", "auto"):
             raise Refuse(f"{self.fn}: a local declaration of type `{tok}` is outside the translated subset (locals are T*, const T*, usize)")
         if tok in ("while", "do", "switch", "goto", "break", "continue", "try", "throw"):
             raise Refuse(f"{self.fn}: statement `{tok}` is outside the translated subset")
@@ -349,7 +349,8 @@ class P:
 
 
 # ---- translation -------------------------------------------------------------------------------------------------------
-LEANTY = {"ptr": "Ptr", "nat": "Nat", "unit": "Unit"}
+LEANTY = {"ptr": "Ptr", "nat": "Nat", "unit": "Unit", "bool": "Bool"}
+VALTYS = ("ptr", "nat", "bool")
 FIELDS = {"_begin": "begin", "_end": "fin"}
 
 
@@ -382,6 +383,10 @@ class Tr:
         self.n = 0
         self.loops = []                   # emitted loop definitions (lists of lines)
         self.in_loop = False
+        self.retstack = []                # frames of inlined helper functions: (return type, continuation)
+        self.trace = []                   # names of locals in the order they are assigned
+        self.helpers = {}                 # name -> list of helper definitions (private / static members that are not translated on their own)
+        self.depth = 0
 
     def fresh(self, base):
         self.n += 1
@@ -449,6 +454,17 @@ class Tr:
             return f"(S.hd {m[0]}).{m[1]}", m[2]
         if k == "member" and e[2] == "item" and e[1][0] == "id" and e[1][1] in env and env[e[1][1]][1] == "ptr":
             return env[e[1][1]][0], "ptr"                           # it.item of an Iterator parameter
+        if k == "call" and e[1][0] == "id":
+            args = [self.pure(a, env) for a in e[2]]
+            hs = [h for h in self.helpers.get(e[1][1], []) if tuple(t for _, t in h["params"]) == tuple(t for _, t in args)]
+            if len(hs) == 1 and len(hs[0]["stmts"]) == 1 and hs[0]["stmts"][0][0] == "return" and hs[0]["stmts"][0][1] is not None \
+                    and not has_effect(hs[0]["stmts"][0][1]):
+                cenv = {pn: (a, pty) for (pn, pty), (a, _) in zip(hs[0]["params"], args)}
+                t, ty = self.pure(hs[0]["stmts"][0][1], cenv)
+                if ty != hs[0]["ret"]:
+                    raise Refuse(f"{self.fn}: `{e[1][1]}` returns a value of type {ty}, expected {hs[0]['ret']}")
+                return t, ty
+            raise Refuse(f"{self.fn}: call of `{e[1][1]}` inside a condition: not a helper of the form `return <side-effect free expression>;`")
         if k == "this":
             return "this", "objaddr"
         if k == "un" and e[1] == "&":
@@ -483,6 +499,8 @@ class Tr:
                 return {"<": f"Ptr.lt {a} {b}", ">": f"Ptr.lt {b} {a}", ">=": f"(!Ptr.lt {a} {b})", "<=": f"(!Ptr.lt {b} {a})"}[op], "bool"
             if op in ("+", "*") and ta == "nat" and tb == "nat":
                 return f"({a} {op} {b})", "nat"
+            if op == "-" and ta == "nat" and tb == "nat":
+                return f"(usub {a} {b})", "nat"
             if op == "|" and ta == "nat" and tb == "nat":
                 return f"({a} ||| {b})", "nat"
         raise Refuse(f"{self.fn}: expression `{e}` is not a side-effect free total expression of the subset")
@@ -565,8 +583,10 @@ class Tr:
             return self.ev(rhs, env, ind, after_rhs)
         if kind == "placement":
             d, s = e[1], e[2]
+            if s[0] == "id" and s[1] in env and env[s[1]][1] == "ref":
+                s = ("un", "*", ("un", "&", s))          # T(value) with `const T& value` = T(*&value)
             if not (s[0] == "un" and s[1] == "*"):
-                raise Refuse(f"{self.fn}: placement new whose constructor argument is not `*s`")
+                raise Refuse(f"{self.fn}: placement new whose constructor argument is not `*s` / a referenced object")
             return self.ev(d, env, ind, lambda dt, dty, env2: self.ev(s[2], env2, ind, lambda st, sty, env3: self.prim(
                 "construct", [(dt, dty), (st, sty)], env3, ind, lambda env4: k(dt, "ptr", env4))))
         if kind == "dtorcall":
@@ -579,7 +599,7 @@ class Tr:
         v = self.fresh("t")
         if ta == "nat" and tb == "nat":
             if op == "-":
-                raise Refuse(f"{self.fn}: subtraction of two usize values (may wrap around)")
+                return k(f"(usub {a} {b})", "nat", env)
             return k(f"({a} + {b})", "nat", env)
         if ta == "ptr" and tb == "nat":
             return [f"{ind}({'Ptr.add' if op == '+' else 'Ptr.subn'} {a} {b}).bind fun {v} =>"] + k(v, "ptr", env)
@@ -605,6 +625,10 @@ class Tr:
         def with_args(vals, env2):
             tys = tuple(ty for _, ty in vals)
             cands = [s for s in self.sigs if s["cxx"] == name and tuple(s["ptypes"]) == tys]
+            if not cands and target == "this":
+                hs = [h for h in self.helpers.get(name, []) if tuple(t for _, t in h["params"]) == tys]
+                if len(hs) == 1:
+                    return self.inline(hs[0], vals, env2, ind, k)
             if len(cands) != 1:
                 raise Refuse(f"{self.fn}: call `{name}` with argument types {tys}: {len(cands)} translated overloads match")
             s = cands[0]
@@ -623,15 +647,52 @@ class Tr:
         args = [a for a in args]
         return go(0, [], env)
 
+    def inline(self, h, vals, env, ind, k):
+        """the body of a helper member function in place of its call; k(term, type, env) continues the caller"""
+        if self.depth >= 3:
+            raise Refuse(f"{self.fn}: helper calls nested deeper than 3 (`{h['name']}`)")
+        cenv, lines = {}, []
+        for (pn, pty), (v, ty) in zip(h["params"], vals):
+            nm = self.fresh("v_" + pn)
+            lines.append(f"{ind}let {nm} := {v}")
+            cenv[pn] = (nm, pty)
+        caller_loop = self.in_loop
+
+        def rk(t, ty, env2):
+            frame = self.retstack.pop()
+            cur, self.in_loop = self.in_loop, caller_loop
+            self.depth -= 1
+            try:
+                return k(t, ty, env)
+            finally:
+                self.retstack.append(frame)
+                self.in_loop = cur
+                self.depth += 1
+
+        def fall(env2, ind2):
+            if h["ret"] != "unit":
+                raise Refuse(f"{self.fn}: control reaches the end of `{h['name']}`, which returns a value")
+            return rk("()", "unit", env2)
+        self.retstack.append((h["ret"], rk))
+        self.depth += 1
+        self.in_loop = False
+        try:
+            return lines + self.run(list(h["stmts"]), cenv, ind, fall)
+        finally:
+            self.retstack.pop()
+            self.depth -= 1
+            self.in_loop = caller_loop
+
     def store(self, lhs, term, ty, env, ind, k):
         """k(env)"""
         if lhs[0] == "id" and lhs[1] in env:
             want = env[lhs[1]][1]
-            if want not in ("ptr", "nat") or want != ty:
+            if want not in VALTYS or want != ty:
                 raise Refuse(f"{self.fn}: a value of type {ty} is stored into `{lhs[1]}` of type {want}")
             env2 = dict(env)
             name = self.fresh("v_" + lhs[1])
             env2[lhs[1]] = (name, ty)
+            self.trace.append(lhs[1])
             return [f"{ind}let {name} := {term}"] + k(env2)
         m = self.member(lhs, env)
         if m is None:
@@ -682,7 +743,7 @@ class Tr:
                 return ([f"{ind}if {c} then"] + self.run([s[2]] + rest, env, ind + "  ", kend) +
                         [f"{ind}else"] + self.run([s[3]] + rest, env, ind + "  ", kend))
             # no branch returns: both branches deliver the state and the locals they assign; what follows is translated once
-            outer = [n for n, (t, ty) in env.items() if ty in ("ptr", "nat")]
+            outer = [n for n, (t, ty) in env.items() if ty in VALTYS]
             changed = set()
 
             def probe(env2, ind2):
@@ -705,6 +766,18 @@ class Tr:
         if k == "return":
             if self.in_loop:
                 raise Refuse(f"{self.fn}: `return` inside a loop")
+            if self.retstack:
+                rty, rk = self.retstack[-1]
+                if s[1] is None:
+                    if rty != "unit":
+                        raise Refuse(f"{self.fn}: `return;` in an inlined function that returns a value")
+                    return rk("()", "unit", env)
+
+                def after_inl(t, ty, env2):
+                    if ty != rty:
+                        raise Refuse(f"{self.fn}: an inlined function returns a value of type {ty}, expected {rty}")
+                    return rk(t, ty, env2)
+                return self.ev(s[1], env, ind, after_inl)
             if s[1] is None:
                 if self.ret != "unit":
                     raise Refuse(f"{self.fn}: `return;` in a function that returns a value")
@@ -740,10 +813,10 @@ class Tr:
         outer = set(env)
 
         def after_init(env1, ind1):
-            names = [n for n, (t, ty) in env1.items() if ty in ("ptr", "nat")]
+            names = [n for n, (t, ty) in env1.items() if ty in VALTYS]
             lenv = {}
             for n, (t, ty) in env1.items():
-                lenv[n] = ((f"v_{n}" if t is not None else None), ty) if ty in ("ptr", "nat") else (t, ty)
+                lenv[n] = ((f"v_{n}" if t is not None else None), ty) if ty in VALTYS else (t, ty)
             binner = set(lenv)
             changed = set()
 
@@ -767,8 +840,15 @@ class Tr:
                     return self.run([body], lenv, "      ", lambda env2, ind2: incs(0, {n: v for n, v in env2.items() if n in binner}, ind2, last))
                 finally:
                     self.in_loop = saved
+            mark = len(self.trace)
             self.dry(lambda: body_lines(probe))
-            state = [n for n in names if n in changed]
+            # canonical order: the loop state in the order of first assignment, the read-only variables in the order of first use
+            # (so that neither the order of the declarations nor the names matter)
+            order = []
+            for n in self.trace[mark:]:
+                if n in changed and n not in order:
+                    order.append(n)
+            state = order + [n for n in names if n in changed and n not in order]
             for n in names:
                 if n not in changed and lenv[n][0] is None:
                     raise Refuse(f"{self.fn}: `{n}` is never assigned")
@@ -781,7 +861,9 @@ class Tr:
             blines = body_lines(recur)
             ctest = "true" if cond is None else self.truth(cond, lenv)
             text = "\n".join(blines) + "\n" + ctest
+            text = ctest + "\n" + "\n".join(blines)
             ro = [n for n in names if n not in changed and re.search(r"\bv_" + re.escape(n) + r"\b", text)]
+            ro.sort(key=lambda n: re.search(r"\bv_" + re.escape(n) + r"\b", text).start())
             objs = [p for p in self.objparams if re.search(r"\b" + p + r"\b", text)]
             refs = [env1[n][0] for n in env1 if env1[n][1] == "ref" and re.search(r"\b" + env1[n][0] + r"\b", text)]
             fixed = "".join(" " + p for p in objs + refs) + "".join(f" v_{n}" for n in ro)
@@ -864,6 +946,36 @@ def class_body(src):
     return rest
 
 
+def find_helpers(cls):
+    """member functions that are not translated on their own (private / static helpers): name -> [definition]; a call of one of
+    them is translated by putting its body in place of the call.  Parameters: T*, const T*, usize, bool by value."""
+    known = {f["cxx"] for f in FUNCS}
+    out = {}
+    for m in re.finditer(r"(?:static\s+|inline\s+)*(?:const\s+)?(T\s*\*|usize|bool|void)\s+(\w+)\s*\(([^()]*)\)\s*(?:const\s*)?\{", cls):
+        rty, name, plist = m.group(1), m.group(2), m.group(3)
+        if name in known or name in ("if", "for", "while", "switch", "return"):
+            continue
+        params, ok = [], True
+        for prm in [x.strip() for x in plist.split(",") if x.strip()]:
+            mm = re.fullmatch(r"(?:const\s+)?(T\s*\*|usize|bool)\s*(\w+)", prm)
+            if not mm:
+                ok = False
+                break
+            params.append((mm.group(2), {"usize": "nat", "bool": "bool"}.get(mm.group(1), "ptr")))
+        if not ok:
+            continue
+        end = balanced(cls, m.end() - 1)
+        fn = f"Array::{name} (helper)"
+        body = resolve_verify(cls[m.end():end - 1], fn)
+        p = P(tokenize(body, fn), fn)
+        stmts = p.stmts()
+        if p.peek() is not None:
+            raise Refuse(f"{fn}: trailing tokens")
+        out.setdefault(name, []).append(dict(name=name, params=params, stmts=stmts,
+                                             ret={"usize": "nat", "bool": "bool", "void": "unit"}.get(rty, "ptr")))
+    return out
+
+
 def generate(repo, out_path):
     """writes out_path (only when the content changes); returns a one-line summary; raises Refuse"""
     repo = Path(repo)
@@ -873,6 +985,7 @@ def generate(repo, out_path):
              "import Nstd.Life.ArrPtr", "", "set_option linter.unusedVariables false", "",
              "namespace Nstd.Generated.LifeArray", "open Nstd.Life", "open Nstd.Life.AP", ""]
     summary = []
+    helpers = find_helpers(cls)
     for f in FUNCS:
         fn = f"Array::{f['cxx']}({', '.join(f['ptypes'])})"
         ms = list(re.finditer(f["rx"] + r"\s*\{", cls))
@@ -903,6 +1016,7 @@ def generate(repo, out_path):
             else:
                 env[nm] = ("v_" + nm, ty); sig += f" (v_{nm} : {LEANTY[ty]})"
         tr = Tr(fn, f["lean"], FUNCS, f["ret"], objparams)
+        tr.helpers = helpers
         pre = []
         if capinit is not None:
             pre = [f"  let S := S.setHd this ⟨Ptr.null, Ptr.null, {capinit}⟩"]
